@@ -13,7 +13,7 @@ from .values import (
 
 KNOWN_MODULES = {"queue", "np", "numpy", "time", "warnings", "textwrap", "threading", "itertools", "math", "json", "pickle",
                  "pd", "h5py", "sps", "sm", "op", "xgb", "kernels", "multiprocessing", "contextlib", "sqlite3",
-                 "gzip", "io", "gym", "Path", "Parallel", "delayed"}
+                 "gzip", "io", "gym", "Path", "Parallel", "delayed", "betabinom"}
 BUILTIN_EXC = {"ValueError", "TypeError", "KeyError", "IndexError", "AttributeError", "RuntimeError",
                "NotImplementedError", "AssertionError", "ZeroDivisionError", "Exception", "BaseException",
                "RuntimeWarning", "LinAlgError", "StopIteration", "OperationalError", "DatabaseError", "Error"}
